@@ -227,6 +227,9 @@ CommonDefs == <<
   D("Q-def", TSeq(<<Df(Int0, I(3)), C(TBool)>>, FALSE, <<>>)),
   D("Q-ext1", TSeq(<<C(I07), O(TBool)>>, TRUE, <<C(Int0)>>)),
   D("Q-extdef", TSeq(<<C(I07)>>, TRUE, <<Df(Int0, I(3)), O(TBool)>>)),
+  \* an extensible type with additions present, carried inside an extension addition (an open type in PER / OER)
+  D("Q-extnest", TSeq(<<C(I07)>>, TRUE, <<C(TRef("Q-ext1")), O(TRef("K-ext2"))>>)),
+  D("K-extseq", TChoice(<<C(I07)>>, TRUE, <<C(TRef("Q-ext1"))>>)),
   D("Q-choice", TSeq(<<C(TRef("K-ib")), O(TChoice(<<C(TNull), C(TOctets(CNone))>>, FALSE, <<>>)), C(TReal)>>, FALSE, <<>>)),
   D("Q-tagged", TSeq(<<Comp("x", TTag("C", 5, "D", Int0), "M"), Comp("x", TTag("C", 6, "D", TRef("K-ib")), "M")>>, FALSE, <<>>)),
   D("Q-nest", TSeq(<<C(TSeq(<<C(I07), O(TBool)>>, FALSE, <<>>)), C(TSeqOf(I07, CNone))>>, FALSE, <<>>)),
